@@ -27,7 +27,7 @@ ASSUMPTIONS = ["RLIMIT_FSIZE stands in for a full file system and applies to eve
                "overflow = the end index of an appended subarray does not fit the index type"]
 EXHAUSTIVE = "the F-fsize grid for the values file and for the indices file"
 KINDS = ['raise', 'badatom', 'badrank', 'unconv', 'overflow']
-MUST_HIT = ['iter:' + k for k in KINDS] + ['iter:append', 'iter:iterappend', 'iter:empty-start', 'iter:p=0', 'iter:p>0',
+MUST_HIT = ['iter:inside-open-context'] + ['iter:' + k for k in KINDS] + ['iter:append', 'iter:iterappend', 'iter:empty-start', 'iter:p=0', 'iter:p>0',
                                              'fsize:values', 'fsize:indices', 'fsize:loud', 'fsize:silent', 'fsize:mid-row', 'fsize:on-boundary']
 IDXMAX = {'int8': 127, 'uint8': 255, 'int16': 32767}
 
@@ -45,7 +45,8 @@ def st_iter(draw):
             'start': [draw(st.sampled_from([0, 1, 2, 3])) for _ in range(draw(st.integers(0, 3)))],
             'n': n, 'p': draw(st.integers(0, n)), 'kind': kind, 'lens': [draw(st.sampled_from([0, 1, 2, 3])) for _ in range(n)],
             'via': draw(st.sampled_from(['iterappend-gen', 'iterappend-list', 'append'])),
-            'indextype': draw(st.sampled_from(['int64', 'int32', 'uint16', 'int8']))}
+            'indextype': draw(st.sampled_from(['int64', 'int32', 'uint16', 'int8'])),
+            'ctx': draw(st.sampled_from([None, None, 'open_arrays', 'iter_arrays']))}
     if kind == 'overflow':
         spec['indextype'] = draw(st.sampled_from(sorted(IDXMAX)))
     return spec
@@ -138,6 +139,21 @@ def _exec_iter(ctx, spec):
         want = start_items + done
         tag = f"iter:{kind}:{'empty' if not start_items else 'nonempty'}-start:{'first' if p == 0 else 'later'}-item:{'append' if via == 'append' else 'iterappend'}"
         raised = None
+        import contextlib
+        stack = contextlib.ExitStack()
+        if spec.get('ctx') and kind != 'overflow':
+            # the failing call is issued while the arrays are held open, after the ragged array grew in that open period
+            out.cls('iter:inside-open-context')
+            if spec['ctx'] == 'open_arrays' or not start_items:
+                stack.enter_context(ra.open_arrays())
+            else:
+                it0 = ra.iter_arrays()
+                next(it0)
+                stack.callback(it0.close)
+            grown = gens.build_array(dt, (2,) + atom, {'m': 'raw', 's': spec['seed'] + 77})
+            ra.append(grown)
+            want = start_items + [grown] + done
+            tag += ':in-context'
         try:
             if via == 'append':
                 for g in done:
@@ -156,6 +172,11 @@ def _exec_iter(ctx, spec):
                 ra.iterappend(it)
         except Exception as e:
             raised = e
+        finally:
+            try:
+                stack.close()
+            except Exception as e:
+                out.viol('context-exit-raised', tag, f'{type(e).__name__}: {e}')
         check_after(out, tag, path, ra, want, dt, raised)
     return out
 
@@ -263,6 +284,9 @@ def iter_grid():
                                 continue
                             yield {'f': 'iter', 'dt': {'t': t, 'bo': bo}, 'atom': atom, 'seed': 4, 'start': start, 'n': n, 'p': p, 'kind': kind,
                                    'lens': [2, 0, 1][:n], 'via': via, 'indextype': itype}
+                            if n <= 1 and kind != 'overflow':
+                                yield {'f': 'iter', 'dt': {'t': t, 'bo': bo}, 'atom': atom, 'seed': 4, 'start': start, 'n': n, 'p': p, 'kind': kind,
+                                       'lens': [2, 0, 1][:n], 'via': via, 'indextype': itype, 'ctx': ['open_arrays', 'iter_arrays'][(n + p) % 2]}
 
 
 def task_fsize(ctx, col, shard):
